@@ -19,6 +19,9 @@ def strings_upto(alpha, n):
 
 class TheCheck(Check):
     prop = "C17"
+    # parser half: theorems live in Props/C17Parsers.lean (imported by Props/C17.lean)
+    also_audit = tuple("Qlibc.Props.C17Parsers." + n for n in (
+        "ini_markers", "aconf_tokenize_safe", "aconf_parse_total", "iniExpand_terminates", "iniParse_total"))
     module = "encode"
     harness = "encode"
     rule = ("arbitrary NUL-terminated inputs in exactly sized heap buffers (ASan+UBSan) fed to the in-place decoders, "
@@ -30,7 +33,10 @@ class TheCheck(Check):
 
     def regenerate(self):
         from checks import c16
-        return c16.TheCheck.regenerate(self)
+        out = c16.TheCheck.regenerate(self)
+        if c17_parsers is not None:
+            out += c17_parsers.TheCheck.regenerate(self)
+        return out
 
     def nontrivial_key(self, op, line):
         return op if not op.endswith(" -") else "trivial"
@@ -40,7 +46,7 @@ class TheCheck(Check):
         sts = []
         corpus = os.path.join(vlib.ROOT, "corpus", "C17")
         for f in sorted(os.listdir(corpus)) if os.path.isdir(corpus) else []:
-            if f.endswith(".ops") and not f.startswith("parser"):
+            if f.endswith(".ops") and not f.startswith(("parser", "ini-", "aconf-")):
                 sts.append(Stream("corpus:" + f, [l.strip() for l in open(os.path.join(corpus, f)) if l.strip()]))
         big = self.tier != "quick"
         url_alpha = b"%+4ag\xff"
@@ -73,13 +79,23 @@ class TheCheck(Check):
             rs.append("%s %s%s" % (op, hexs(x), " 3d 26" if op == "query" else ""))
         sts.append(Stream("random", rs))
         if c17_parsers is not None:
-            sts += c17_parsers.parser_streams(self)
+            # the parser half has its own harness / driver module / wraps and its own oracle
+            def oracle(ops, lines):
+                for i, (op, l) in enumerate(zip(ops, lines)):
+                    d = c17_parsers.parser_judge(op, l)
+                    if d:
+                        return i, d
+                return None
+            for st in c17_parsers.parser_streams(self):
+                st.harness, st.module, st.wraps, st.oracle = c17_parsers.HARNESS, c17_parsers.MODULE, c17_parsers.WRAPS, oracle
+                st.name = "parsers:" + st.name
+                sts.append(st)
         return sts
 
     def judge(self, op, line):
         w, f = op.split(), line.split()
-        if c17_parsers is not None and c17_parsers.is_parser_op(op):
-            return c17_parsers.parser_judge(op, line)
+        if w[0] in ("ini", "ac"):
+            return c17_parsers.parser_judge(op, line) if c17_parsers is not None else None
         if line.startswith("fault"):
             return "%s on input %s" % (line, op)
         if w[0] in ("urldec", "hexdec", "b64dec"):
@@ -91,6 +107,6 @@ class TheCheck(Check):
         return None
 
     def classify(self, op, detail):
-        if c17_parsers is not None and c17_parsers.is_parser_op(op):
+        if c17_parsers is not None and op.split()[0] in ("ini", "ac"):
             return c17_parsers.parser_classify(op, detail)
         return "qencode:" + op.split()[0]
